@@ -58,12 +58,16 @@ static bool c18_final_step(void) { return strcmp(g_crumb_at_reset, v_get_crumb()
     } while (0)
 
 /* ---- callbacks -------------------------------------------------------------------------------------- */
+static int g_null_k = -1; /* configuration: the key with this id is passed as a NULL pointer (a legal key of the underlying hash table,
+                             e.g. integer ids used as pointer keys); both "twins" of it are then the same object */
 static struct kobj *as_key(const void *p) {
     const struct kobj *b = &KO[0][0];
+    if (!p && g_null_k >= 0) return &KO[g_null_k][0];
     if ((const struct kobj *)p < b || (const struct kobj *)p >= b + NK * NT) return NULL;
     if (((const char *)p - (const char *)b) % sizeof(struct kobj)) return NULL;
     return (struct kobj *)p;
 }
+static void *kptr(int k, int t) { return k == g_null_k ? NULL : (void *)&KO[k][t]; }
 static int g_null_v = -1; /* configuration: the value with this index is stored as a NULL pointer (a legal value), -1 = none */
 static void *vptr(int v) { return v == g_null_v ? NULL : (void *)&VO[v]; }
 static struct vobj *as_val(const void *p) {
@@ -74,7 +78,16 @@ static struct vobj *as_val(const void *p) {
     return (struct vobj *)p;
 }
 
+/* configuration "-probe": the value destructor is itself a (read-only) client of the table - it looks every key up while the
+ * operation that displaced its value is still in progress.  Nothing documents what such a lookup answers for the entry
+ * being displaced, so the oracle is memory safety (the table's memory is poisoned when released) plus: whatever is
+ * answered is NULL or a value that was put, never garbage (added after a seeded change that released the list node
+ * before calling the value destructor, leaving the hash element pointing at freed memory during the callback). */
+static struct aws_linked_hash_table *g_probe_tbl;
+static int g_probe; /* configuration flag; the model's reset() points g_probe_tbl at its table, teardown() clears it */
+static int g_in_probe;
 static void touch_key(const void *p, const char *who) {
+    if (g_in_probe) return; /* lookups made from inside a destructor may legitimately meet the key destroyed a moment ago */
     struct kobj *k = as_key(p);
     if (!k) {
         esx_fail("callback-foreign-key", "%s: %s callback received a pointer that is not one of the harness key objects", g_opname, who);
@@ -119,6 +132,18 @@ static void h_val_destroy(void *p) {
         return;
     }
     v->destroyed++;
+    if (g_probe_tbl && !g_in_probe) {
+        g_in_probe = 1;
+        for (int k = 0; k < g_nk; ++k) {
+            void *found = (void *)&KO[0][0]; /* neither NULL nor a value object */
+            int rc = aws_linked_hash_table_find(g_probe_tbl, kptr(k, 0), &found);
+            V_COUNT("lookups_from_inside_a_value_destructor", 1);
+            if (rc != AWS_OP_SUCCESS || (found != NULL && !as_val(found)))
+                esx_fail("lookup-during-destructor", "%s: a lookup of k%d made from inside the value destructor of v%d returned %d and a value pointer that was never put", g_opname, k,
+                         v->id, rc);
+        }
+        g_in_probe = 0;
+    }
 }
 
 /* ---- reference ordered map --------------------------------------------------------------------------- */
